@@ -182,4 +182,5 @@ Proof.
     destruct (WI _ _ Ho) as (E & R & L).
     eapply mut_sim; [eassumption | assumption |].
     rewrite (abs_obj_repr _ _ _ R). apply sim_indices; assumption.
+  - destruct WF.
 Qed.
